@@ -34,26 +34,37 @@ def r1_fd_owned(r, facts):
     if not r.require(len(setup) == 1, 'build_sys/setup', 'io_uring_setup call not found', f.where()):
         return
     sl, st = setup[0]
-    maps = [(loc, t) for loc, t in f.calls() if (t.get('callee') or '') == 'std::result::Result::<T, E>::map' and f.dominates(sl, loc)]
-    if not r.require(len(maps) >= 1, 'build_sys/map', 'the setup result is not mapped into an owner', f.where(sl)):
+    # where the descriptor gets its owner: OwnedFd::from_raw_fd applied to the setup result, called directly or
+    # inside the closure of a Result::map on it
+    own = []
+    for loc, t in f.calls():
+        n = t.get('callee') or ''
+        if n.endswith('FromRawFd::from_raw_fd') and 'OwnedFd' in (t.get('callee_full') or ''):
+            a = eb.operand(t['args'][0])
+            if any(x[0] == 'call' and x[1].endswith('io_uring_setup') for x in subexprs(a)):
+                own.append(loc)
+                r.inst('setup -> OwnedFd::from_raw_fd(rfd)', f.where(loc))
+        if n == 'std::result::Result::<T, E>::map' and any(x[0] == 'call' and x[1].endswith('io_uring_setup') for x in subexprs(eb.operand(t['args'][0]))):
+            for l2, s2 in f.assigns():
+                rv = s2['rv']
+                if rv['k'] == 'agg' and rv.get('ak') == 'closure':
+                    c = facts.fn_opt(rv['closure'])
+                    if c is None:
+                        continue
+                    ec = ExprBuilder(c)
+                    for l3, t3 in c.calls():
+                        if (t3.get('callee') or '').endswith('FromRawFd::from_raw_fd') and 'OwnedFd' in (t3.get('callee_full') or ''):
+                            a = ec.operand(t3['args'][0])
+                            if a[0] == 'arg' and a[1] == 2:
+                                own.append(loc)
+                                r.inst('setup -> map(|rfd| OwnedFd::from_raw_fd(rfd))', f.where(loc))
+    if not r.require(len(own) >= 1, 'build_sys/map', 'the descriptor returned by io_uring_setup is never wrapped in an OwnedFd', f.where(sl)):
         return
-    ml, mt = maps[0]
-    src = eb.operand(mt['args'][0])
-    r.require(any(x[0] == 'call' and x[1].endswith('io_uring_setup') for x in subexprs(src)), 'build_sys/map-src', 'Result::map is not applied to the io_uring_setup result', f.where(ml))
-    c = facts.fn(BUILD_SYS + '::{closure#0}')
-    calls = [(t.get('callee') or '') for loc, t in c.calls()]
-    ec = ExprBuilder(c)
-    ok = any(n.endswith('FromRawFd::from_raw_fd') for n in calls)
-    r.inst('setup -> map(|rfd| OwnedFd::from_raw_fd(rfd))', f.where(ml))
-    r.require(ok, 'build_sys/own', 'the new ring descriptor is not wrapped in OwnedFd', c.where())
-    for loc, t in c.calls():
-        if (t.get('callee') or '').endswith('from_raw_fd'):
-            a = ec.operand(t['args'][0])
-            r.require(a[0] == 'arg' and a[1] == 2, 'build_sys/own-arg', 'from_raw_fd is not applied to the setup result', c.where(loc))
-            r.require('OwnedFd' in (t.get('callee_full') or ''), 'build_sys/own-type', 'the descriptor is wrapped in %s, not OwnedFd' % t.get('callee_full'), c.where(loc))
-    # the raw value has no other use: the syscall result local only flows into the Result aggregate
-    hit = f.forward_paths_hit([Loc(st['target'], 0)], f.returns(), blockers=[ml])
-    r.require(hit is None, 'build_sys/exit-before-own', 'a path returns between io_uring_setup and taking ownership of the descriptor', f.where(hit[0]) if hit else '')
+    # once the kernel has created the ring (the syscall returned a descriptor, not -1) no path leaves build_sys
+    # before the descriptor has its owner
+    if st['target'] is not None and not st['dest']['p']:
+        hit = f.forward_paths_hit([Loc(st['target'], 0)], f.returns(), blockers=own, env0={st['dest']['l']: 5})
+        r.require(hit is None, 'build_sys/exit-before-own', 'a path returns between a successful io_uring_setup and taking ownership of the descriptor (the ring descriptor stays open)', f.where(hit[0]) if hit else '')
     raw = st['dest']['l']
     uses = 0
     for loc, s in f.assigns():
@@ -96,16 +107,11 @@ def r2_map_unmap(r, facts):
                     if (t2.get('callee') or '') == 'std::result::Result::<T, E>::inspect_err' and is_local(t2['args'][0], cur):
                         via_inspect = (l2, t2)
                         cur = t2['dest']['l']
-                br = None
-                for l2, t2 in f.calls():
-                    if (t2.get('callee') or '') == 'std::ops::Try::branch' and is_local(t2['args'][0], cur):
-                        br = (l2, t2)
-                if not r.require(br is not None, '%s/map%d' % (name, idx), 'result of the mapping is not propagated with `?`', f.where(loc)):
+                from .kernel import result_edges
+                re_ = result_edges(f, {'dest': {'l': cur, 'p': []}})
+                if not r.require(re_ is not None and re_[0] is not None, '%s/map%d' % (name, idx), 'how the result of the mapping is handled was not recognised (neither `?` nor a match)', f.where(loc)):
                     continue
-                for si in f.enum_switches('std::ops::ControlFlow'):
-                    if si['place']['l'] == br[1]['dest']['l'] and not si['place']['p']:
-                        ce = f.variant_edge(si, 'Continue')
-                        start = Loc(ce[1], 0)
+                start = Loc(re_[0][1], 0)
                 # the pointer value
                 ptr_expr_pred = lambda e, loc=loc: any(x[0] == 'call' and x[1] == MMAP for x in subexprs(e))
             else:
